@@ -212,33 +212,41 @@ def nspParse (st : Settings) (order : String) (s0 : String) : Except PyErr (DT Ã
   | some r => return r
   | none => throw (.value .unable)
 
+-- ---------------- the timezone pipeline of date_parser.parse
+/-- what `DateParser.parse` does with the naive datetime `t` returned by the parse method: attach the string's own zone
+    (`ptz`) or the TIMEZONE setting, convert to TIMEZONE (when the string named a zone) and to TO_TIMEZONE, then apply
+    RETURN_AS_TIMEZONE_AWARE -/
+def zonePipeline (st : Settings) (ptz : Option Int) (t : DT) : Except PyErr ADT := do
+  let x1 : ADT â† match ptz with
+    | some o =>
+      if isLocalTz st then pure { t, off := some o }
+      else do
+        let b â† needFixed st.tzApply
+        astimezone { t, off := some o } b
+    | none =>
+      if isLocalTz st then pure { t, off := some st.localOff }
+      else do
+        let b â† needFixed st.tzLocalize
+        pure { t, off := some b }
+  let x2 : ADT â† if st.toTimezone.isSome then (do let b â† needFixed st.toTzApply; astimezone x1 b) else pure x1
+  return applyAwareness st x2 ptz.isSome
+
+/-- the instant an aware datetime denotes (Âµs since ordinal 0, UTC) -/
+def ADT.instant (x : ADT) : Int := x.t.micros - (x.off.getD 0) * 1000000
+
 -- ---------------- date_parser.parse
 /-- `DateParser.parse` with `parse_method` âˆˆ {`_parse_absolute`, `_parse_nospaces`} -/
 def dateParserParse (T : TzTable) (st : Settings) (order : String) (nospaces : Bool) (s : String) : Except PyErr (ADT Ã— Period) := do
   if pyStrip s == "" then throw (.value .empty)
   let s := stripBraces s
   let (s, ptz) := popTz T s
-  let local_ := isLocalTz st
+
   let tzOff : Int := match ptz with
     | some (_, o) => o
     | none => (match st.tzLocalize with | .fixed o => o | _ => 0)
   let (t, period) â† if nospaces then nspParse st order s else absParse (psettingsOf st order tzOff) s.toList
-  let mut x : ADT := { t, off := none }
-  match ptz with
-  | some (_, o) =>
-    x := { t, off := some o }
-    if !local_ then
-      let b â† needFixed st.tzApply
-      x â† astimezone x b
-  | none =>
-    if local_ then x := { t, off := some st.localOff }
-    else
-      let b â† needFixed st.tzLocalize
-      x := { t, off := some b }
-  if st.toTimezone.isSome then
-    let b â† needFixed st.toTzApply
-    x â† astimezone x b
-  return (applyAwareness st x ptz.isSome, period)
+  let x â† zonePipeline st (ptz.map (Â·.2)) t
+  return (x, period)
 
 -- ---------------- freshness
 def PATTERN := rx Gen.reFreshPattern
@@ -336,6 +344,7 @@ def freshnessParse (T : TzTable) (st : Settings) (s0 : String) : Except PyErr (O
   let time : Option DT â† match timeParser ts.toList with
     | .ok t => pure (some t)
     | .error e => if caughtBy Gen.exceptFreshParseTime e then pure none else throw e
+
   let local_ := isLocalTz st
   let mut now : ADT := { t := st.now, off := st.nowOff }
   if !local_ then
